@@ -580,7 +580,8 @@ class C16(Prop):
     table_groups = ['ChainPow', 'Limits']
     theorems = ['BtcVerif.C16.' + t for t in (
         'sigops_eq_spec', 'tx_sigops_eq_spec', 'checkTx_iff', 'checkTx_reject_is_validation', 'outpoint_key_inj',
-        'checkHeader_iff', 'commitment_index_last', 'checkBlock_iff', 'reject_is_validation', 'chain_limits')]
+        'checkHeader_iff', 'commitment_index_last', 'checkBlock_iff', 'reject_is_validation', 'chain_limits',
+        'isCoinbase_char', 'checkBlock_mono_flags', 'mutated_block_invalid')]
     anchors = [('bitcoin/core/__init__.py', 'MoneyRange'),
                ('bitcoin/core/__init__.py', 'CheckTransaction'),
                ('bitcoin/core/__init__.py', 'CheckProofOfWork'),
